@@ -24,6 +24,13 @@ impl<B: Buffer> History<B> {
         }
     }
 
+    /// Whole buffer, number of used bytes, byte index of selected element
+    #[cfg(feature = "verif-hooks")]
+    #[doc(hidden)]
+    pub fn verif_raw(&self) -> (&[u8], usize, Option<usize>) {
+        (self.buffer.as_slice(), self.used, self.cursor)
+    }
+
     /// Return next element from history, that is newer, than currently selected.
     /// Return None if there is no newer elements
     pub fn next_newer(&mut self) -> Option<&str> {
